@@ -13,6 +13,7 @@ PRE = "From Coq Require Import List String.\nFrom Syc Require Import Async.Strea
 # view = ("text", s) | ("el", tag, [views]) | ("sus", id, [views])      fallback text is "F<id>"
 #      | ("resv", gate, [views])  a Resource created outside every boundary, read here: nothing while loading, the views afterwards;
 #                                 for the boundary that reads it, it is a task (modelled as an async component)
+#      | ("live",)   a dynamic text "alive" that a cleanup callback of its scope turns into "gone" (the render must show "alive")
 #      | ("trans", id, [views])    Transition: in the three SSR modes it must behave as a Suspense boundary (modelled as one)
 #      | ("async", gate, [views])
 
@@ -22,6 +23,8 @@ def hx(s):
 
 
 def sx(v):
+    if v[0] == "live":
+        return "(live)"
     if v[0] == "text":
         return "(text %s)" % hx(v[1])
     if v[0] == "el":
@@ -39,7 +42,7 @@ def splice(vs):
     for v in vs:
         if v[0] == "dyn":
             out += splice(v[1])
-        elif v[0] == "text":
+        elif v[0] in ("text", "live"):
             out.append(v)
         elif v[0] == "el":
             out.append(("el", v[1], splice(v[2])))
@@ -49,6 +52,8 @@ def splice(vs):
 
 
 def cq(v):
+    if v[0] == "live":
+        return "SText %s" % gstr("alive")
     if v[0] == "text":
         return "SText %s" % gstr(v[1])
     if v[0] == "el":
@@ -59,7 +64,7 @@ def cq(v):
 
 
 def gates(v):
-    if v[0] == "text":
+    if v[0] in ("text", "live"):
         return []
     if v[0] == "dyn":
         return [g for c in v[1] for g in gates(c)]
@@ -69,7 +74,7 @@ def gates(v):
 
 
 def boundary_ids(v):
-    if v[0] == "text":
+    if v[0] in ("text", "live"):
         return []
     if v[0] == "dyn":
         return [b for c in v[1] for b in boundary_ids(c)]
@@ -79,6 +84,8 @@ def boundary_ids(v):
 # ---- reference semantics used by the oracle (the property text, not the model) ----
 def full(v):
     """everything resolved, no fallback"""
+    if v[0] == "live":
+        return "alive"
     if v[0] == "text":
         return v[1]
     if v[0] == "dyn":
@@ -90,6 +97,8 @@ def full(v):
 
 def shell(v):
     """nothing resolved: boundaries show their fallback"""
+    if v[0] == "live":
+        return "alive"
     if v[0] == "text":
         return v[1]
     if v[0] == "dyn":
@@ -109,6 +118,7 @@ def shapes():
     S = lambda i, *c: ("sus", i, list(c))
     R = lambda i, *c: ("trans", i, list(c))
     V = lambda g, *c: ("resv", g, list(c))
+    LIVE = ("live",)
     A = lambda g, *c: ("async", g, list(c))
     D = lambda *c: ("dyn", list(c))
     return [
@@ -147,6 +157,10 @@ def shapes():
         [S(1, V(1, A(2, T("c"))))],
         [S(1, V(1, S(2, A(2, T("b")))), A(3, T("z")))],
         [E("div", S(1, V(1, A(2, E("p", T("c")))), T("s")), S(2, V(3, T("r"))))],
+        # content that a cleanup callback changes when the render's scopes are disposed: the output must show the state the render reached
+        [S(1, A(1, T("a")), LIVE)],
+        [S(1, A(1, LIVE, T("b")))],
+        [E("div", LIVE, S(1, A(1, T("a"))), S(2, A(2, LIVE)))],
         # Transition boundaries (a Suspense around a detached suspense scope): alone, around and inside ordinary boundaries
         [R(1, A(1, T("a")))],
         [R(1, A(1, T("x")), S(2, A(2, T("y"))))],
